@@ -88,6 +88,655 @@ fn value_num(v: &Value) -> Option<f64> {
     }
 }
 
+// ------------------------------------------------------------------------------------------------
+// TEXT output of doubles: "other numbers keep their double value (full precision in JSON output,
+// two decimals in text output)".  The reference below is exact integer arithmetic on the binary64
+// value m·2^e — it never calls a float formatter — so the expected text is the correctly rounded
+// (half to even on the exact value) two-decimal rendering of the double the run holds.
+// ------------------------------------------------------------------------------------------------
+
+/// decimal digits of m·2^e (e ≥ 0): schoolbook doubling on base-10^9 limbs
+fn big_shl_dec(m: u64, e: u32) -> String {
+    let mut limbs: Vec<u32> = vec![];
+    let mut mm = m;
+    while mm > 0 {
+        limbs.push((mm % 1_000_000_000) as u32);
+        mm /= 1_000_000_000;
+    }
+    if limbs.is_empty() {
+        limbs.push(0);
+    }
+    for _ in 0..e {
+        let mut carry = 0u64;
+        for l in limbs.iter_mut() {
+            let t = (*l as u64) * 2 + carry;
+            *l = (t % 1_000_000_000) as u32;
+            carry = t / 1_000_000_000;
+        }
+        if carry > 0 {
+            limbs.push(carry as u32);
+        }
+    }
+    let mut s = format!("{}", limbs[limbs.len() - 1]);
+    for l in limbs.iter().rev().skip(1) {
+        s.push_str(&format!("{:09}", l));
+    }
+    s
+}
+
+/// the finite double `x`, exactly, rounded to two decimals (ties on the exact value go to the even
+/// hundredth); a negative value that rounds to zero comes out as "-0.00"
+pub fn exact_fixed2(x: f64) -> String {
+    let bits = x.to_bits();
+    let neg = bits >> 63 == 1;
+    let ef = ((bits >> 52) & 0x7ff) as i32;
+    let frac = bits & ((1u64 << 52) - 1);
+    let (m, e) = if ef == 0 { (frac, -1074) } else { (frac | (1u64 << 52), ef - 1075) };
+    let body = if e >= 0 {
+        format!("{}.00", big_shl_dec(m, e as u32))
+    } else {
+        // x·100 = m·100 / 2^k, m·100 < 2^60
+        let k = (-e) as u32;
+        let p = (m as u128) * 100;
+        let cents: u128 = if k >= 100 {
+            0
+        } else {
+            let q = p >> k;
+            let rem = p & ((1u128 << k) - 1);
+            let half = 1u128 << (k - 1);
+            if rem > half || (rem == half && q & 1 == 1) {
+                q + 1
+            } else {
+                q
+            }
+        };
+        format!("{}.{:02}", cents / 100, cents % 100)
+    };
+    if neg {
+        format!("-{}", body)
+    } else {
+        body
+    }
+}
+
+/// is `text` an acceptable text rendering of the number `j` (as the `-o json` run of the same query
+/// shows it)?  A double: its exact value to two decimals; the sign of a zero result is not decided
+/// by the property ("-0.00" and "0.00" both pass); an integral value may come without decimals.
+fn text_shows(j: &J, text: &str) -> bool {
+    let unsigned = |t: &str| t.trim_start_matches('-').to_string();
+    match j {
+        J::Int(g) => {
+            let w = format!("{}", g);
+            text == w || text == format!("{}.00", w) || (*g == 0 && (text == "-0" || text == "-0.00"))
+        }
+        J::Float(f) if f.is_finite() => {
+            let w = exact_fixed2(*f);
+            if text == w {
+                return true;
+            }
+            if unsigned(&w) == "0.00" && unsigned(text) == "0.00" {
+                return true;
+            }
+            f.fract() == 0.0 && w.strip_suffix(".00") == Some(text)
+        }
+        _ => false,
+    }
+}
+
+/// does the JSON value denote exactly the double `x`?
+fn json_is(j: &J, x: f64) -> bool {
+    match j {
+        J::Float(f) => f.to_bits() == x.to_bits() || (*f == x && x == 0.0),
+        J::Int(g) => x.fract() == 0.0 && x.abs() < 9.3e18 && (x as i128) == (*g as i128),
+        _ => false,
+    }
+}
+
+fn json_num(j: &J) -> Option<f64> {
+    match j {
+        J::Float(f) => Some(*f),
+        J::Int(g) => Some(*g as f64),
+        _ => None,
+    }
+}
+
+/// a finite non-zero double from the classes where a two-decimal rendering can go wrong: a 5 in the
+/// third decimal place (the double lies just below or above the decimal tie), exact binary ties (odd
+/// eighths), 15–17 significant digits with a fraction, magnitudes 1e-9..1e15, values that round to
+/// ±0.00, neighbours of all of these; `wide` adds magnitudes up to f64::MAX and down to 5e-324
+fn tricky_double(r: &mut Rng, wide: bool) -> f64 {
+    fn ip(r: &mut Rng, maxd: usize) -> String {
+        let n = r.below(maxd + 1);
+        if n == 0 {
+            "0".into()
+        } else {
+            digits(r, n)
+        }
+    }
+    let p = |s: String| -> f64 { s.parse::<f64>().unwrap_or(0.125) };
+    let mut x = match r.below(if wide { 15 } else { 12 }) {
+        0 | 1 => {
+            let (i, c) = (ip(r, 7), r.below(100));
+            p(format!("{}.{:02}5", i, c))
+        }
+        2 => {
+            let n = 8 + r.below(6);
+            let (i, c) = (digits(r, n), r.below(100));
+            p(format!("{}.{:02}5", i, c))
+        }
+        3 => {
+            let n = r.next() >> (20 + r.below(40));
+            (n as f64 * 8.0 + [1.0, 3.0, 5.0, 7.0][r.below(4)]) / 8.0
+        }
+        4 => {
+            let j = 1 + r.below(20);
+            let k = r.next() >> (24 + r.below(30));
+            k as f64 / (1u64 << j) as f64
+        }
+        5 => {
+            let n = 11 + r.below(5);
+            let (i, f) = (digits(r, n), dg(r, 1, 4));
+            p(format!("{}.{}", i, f))
+        }
+        6 => {
+            let (i, f) = (ip(r, 3), dg(r, 12, 6));
+            p(format!("{}.{}", i, f))
+        }
+        7 => {
+            let (d, f, e) = (1 + r.below(9), dg(r, 1, 8), r.range(-9, 14));
+            p(format!("{}.{}e{}", d, f, e))
+        }
+        8 => {
+            if r.chance(50) {
+                p(format!("0.00{}", *r.pick(&["1", "4", "49", "4999999999999999", "5", "50000000000000001", "51", "6", "9", "09", "009", "0000001", "000000001"])))
+            } else {
+                let f = dg(r, 1, 10);
+                p(format!("0.00{}", f))
+            }
+        }
+        9 => {
+            let (i, c) = (ip(r, 6), r.below(100));
+            p(format!("{}.{:02}{}", i, c, *r.pick(&["49999999999", "4999999999999999", "50000000001", "5000000000000001", "99999999999", "9999999999999999", "00000000001", "51", "49"])))
+        }
+        10 => {
+            let e = (1023 - 34 + r.below(85)) as u64;
+            f64::from_bits((r.next() >> 12) | (e << 52))
+        }
+        11 => {
+            let (i, f) = (ip(r, 9), dg(r, 1, 2));
+            p(format!("{}.{}", i, f))
+        }
+        12 | 13 => match r.below(3) {
+            0 => {
+                let e = (1023 + 50 + r.below(974)) as u64;
+                f64::from_bits((r.next() >> 12) | (e << 52))
+            }
+            1 => {
+                let (m, e) = (dg(r, 1, 17), r.range(16, 290));
+                p(format!("{}e{}", m, e))
+            }
+            _ => *r.pick(&[f64::MAX, 1e307, 1.8e306, 1.7e306, 1e300, 9223372036854775808.0, 18446744073709551616.0, 1e16, 9007199254740994.0, 4503599627370497.5, 2251799813685248.25, 1e22, 1e23]),
+        },
+        _ => match r.below(3) {
+            0 => {
+                let e = r.below(1023 - 34) as u64;
+                f64::from_bits((r.next() >> 12) | (e << 52))
+            }
+            1 => {
+                let (m, e) = (dg(r, 1, 17), r.range(-320, -10));
+                p(format!("{}e{}", m, e))
+            }
+            _ => *r.pick(&[5e-324, 1e-300, 2.2250738585072014e-308, 2.225073858507201e-308, 1e-10, 4.9e-3]),
+        },
+    };
+    // neighbours (1–3 units in the last place): ties become near-ties
+    if r.chance(15) {
+        let d = 1 + r.below(3) as u64;
+        x = f64::from_bits(if r.chance(50) { x.to_bits().saturating_add(d) } else { x.to_bits().saturating_sub(d) });
+    }
+    if !x.is_finite() || x == 0.0 {
+        x = 0.125;
+    }
+    if r.chance(35) {
+        -x
+    } else {
+        x
+    }
+}
+
+/// a spelling of `x` that reads back as exactly `x` (shortest round trip, exponent form, 17
+/// significant digits, plain decimal)
+fn float_literal(r: &mut Rng, x: f64) -> String {
+    let lit = match r.below(4) {
+        0 => format!("{:?}", x),
+        1 => format!("{:e}", x),
+        2 => format!("{:.16e}", x),
+        _ => format!("{}", x),
+    };
+    // an integer spelling within the 64-bit range names that INTEGER ("integers within the 64-bit
+    // range stay exact"): beyond 2^53 the shortest digits of a double are not the double's value
+    let names_other_integer = lit.parse::<i64>().map(|i| x.fract() != 0.0 || (x as i128) != (i as i128)).unwrap_or(false);
+    if !names_other_integer && lit.parse::<f64>().map(|y| y.to_bits() == x.to_bits()).unwrap_or(false) {
+        lit
+    } else {
+        format!("{:?}", x)
+    }
+}
+
+/// what a cell of the result must be
+enum Want {
+    /// exactly this double
+    Exact(f64),
+    /// this value up to the given absolute error (order of a floating-point summation is not fixed)
+    Near(f64, f64),
+}
+
+/// one input line with the given fields, in the spelling of the extraction route; returns the
+/// line and the query stage(s) that extract the fields.  `text` fields are numbers given as text
+/// (`num()` coerces them into the column of the same name without the trailing underscore).
+fn route_line(route: usize, fields: &[(&str, String)], k: Option<&str>) -> String {
+    let mut s = String::new();
+    match route {
+        0 | 1 => {
+            s.push('{');
+            for (i, (n, v)) in fields.iter().enumerate() {
+                if i > 0 {
+                    s.push(',');
+                }
+                if route == 1 {
+                    s.push_str(&format!("\"{}_\":\"{}\"", n, v));
+                } else {
+                    s.push_str(&format!("\"{}\":{}", n, v));
+                }
+            }
+            if let Some(k) = k {
+                s.push_str(&format!(",\"k\":\"{}\"", k));
+            }
+            s.push('}');
+        }
+        2 => {
+            for (i, (n, v)) in fields.iter().enumerate() {
+                if i > 0 {
+                    s.push(' ');
+                }
+                s.push_str(&format!("{}={}", n, v));
+            }
+            if let Some(k) = k {
+                s.push_str(&format!(" k={}", k));
+            }
+        }
+        _ => {
+            s.push_str("took");
+            for (n, v) in fields.iter() {
+                s.push_str(&format!(" {}={} u", n, v));
+            }
+            if let Some(k) = k {
+                s.push_str(&format!(" k={}", k));
+            }
+            s.push_str(" end");
+        }
+    }
+    s.push('\n');
+    s
+}
+
+fn route_stage(route: usize, names: &[&str], with_k: bool) -> String {
+    match route {
+        0 => "json".to_string(),
+        1 => {
+            let mut s = "json".to_string();
+            for n in names {
+                s.push_str(&format!(" | num({}_) as {}", n, n));
+            }
+            s
+        }
+        2 => "logfmt".to_string(),
+        _ => {
+            let mut pat = String::new();
+            let mut cols: Vec<String> = vec![];
+            for n in names {
+                pat.push_str(&format!("{}=* u ", n));
+                cols.push(n.to_string());
+            }
+            if with_k {
+                pat.push_str("k=* end");
+                cols.push("k".into());
+            } else {
+                pat = pat.trim_end().to_string();
+            }
+            format!("parse \"{}\" as {}", pat, cols.join(", "))
+        }
+    }
+}
+
+/// `[a=1.00]    [b=x]` → [(a, 1.00), (b, x)]
+fn legacy_record_fields(line: &str) -> Vec<(String, String)> {
+    let mut out = vec![];
+    let mut rest = line;
+    while let Some(i) = rest.find('[') {
+        let after = &rest[i + 1..];
+        let j = match after.find(']') {
+            Some(j) => j,
+            None => break,
+        };
+        let cell = &after[..j];
+        if let Some(eq) = cell.find('=') {
+            out.push((cell[..eq].to_string(), cell[eq + 1..].to_string()));
+        }
+        rest = &after[j + 1..];
+    }
+    out
+}
+
+/// the rows of a text-mode output as (column, text) lists; None when the output has no such shape
+fn text_rows(mode: &str, stdout: &[u8], table: bool, fmt_cols: &[String]) -> Option<Vec<Vec<(String, String)>>> {
+    let text = String::from_utf8(stdout.to_vec()).ok()?;
+    let lines: Vec<&str> = text.lines().filter(|l| !l.is_empty()).collect();
+    if mode == "legacy" && table {
+        if lines.len() < 2 || lines[1].is_empty() || !lines[1].chars().all(|c| c == '-') {
+            return None;
+        }
+        let header: Vec<&str> = lines[0].split_whitespace().collect();
+        let mut rows = vec![];
+        for l in &lines[2..] {
+            let cells: Vec<&str> = l.split_whitespace().collect();
+            if cells.len() != header.len() {
+                return None;
+            }
+            rows.push(header.iter().zip(cells.iter()).map(|(h, c)| (h.to_string(), c.to_string())).collect());
+        }
+        Some(rows)
+    } else if mode == "legacy" {
+        Some(lines.iter().map(|l| legacy_record_fields(l)).collect())
+    } else if mode == "logfmt" {
+        Some(lines.iter().map(|l| l.split_whitespace().filter_map(|c| c.split_once('=')).map(|(a, b)| (a.to_string(), b.to_string())).collect()).collect())
+    } else {
+        let mut rows = vec![];
+        for l in &lines {
+            let cells: Vec<&str> = l.split('|').collect();
+            if cells.len() != fmt_cols.len() {
+                return None;
+            }
+            rows.push(fmt_cols.iter().zip(cells.iter()).map(|(h, c)| (h.clone(), c.to_string())).collect());
+        }
+        Some(rows)
+    }
+}
+
+/// Run `q` over `input` with `-o json` and in every text mode (default/legacy, logfmt, format=) and
+/// judge: (1) the JSON run shows the wanted doubles — bit for bit where the value is determined,
+/// within the rounding of a summation otherwise; (2) every text cell of a numeric column is the
+/// exact two-decimal rendering of the double the JSON run shows in that cell.
+/// `rows`: the wanted rows — records in input order, or groups identified by column `k`.
+/// Ok(cells judged) | Err((what, detail)); Err with what == "" means the case could not be judged.
+fn judge_text(q: &str, input: &[u8], table: bool, by_k: bool, rows: &[(Option<String>, Vec<(String, Want)>)]) -> Result<usize, (String, String)> {
+    let find_row = |got: &[Vec<(String, J)>], i: usize, k: &Option<String>| -> Option<Vec<(String, J)>> {
+        if by_k {
+            let k = k.clone()?;
+            let mut m = got.iter().filter(|row| row.iter().any(|c| c.0 == "k" && c.1 == J::Str(k.clone())));
+            let first = m.next().cloned();
+            if m.next().is_some() {
+                return None;
+            }
+            first
+        } else {
+            got.get(i).cloned()
+        }
+    };
+    let rj = imp::run(q, input, "json", 20);
+    if rj.hung {
+        return Err((String::new(), "the -o json run did not finish in 20 s".into()));
+    }
+    if !rj.compiled || rj.panicked.is_some() || (rj.error_lines > 0 && !rj.contaminated) {
+        return Err(("the query failed on plain numeric input".into(), format!("compiled={} panicked={:?} stderr={}", rj.compiled, rj.panicked, clip(&rj.stderr))));
+    }
+    let out = String::from_utf8_lossy(&rj.stdout).to_string();
+    let jrows: Vec<Vec<(String, J)>> = if table {
+        match canon::parse(out.trim_end()) {
+            Ok(J::Arr(rs)) => rs.into_iter().filter_map(|r| if let J::Obj(kvs) = r { Some(kvs) } else { None }).collect(),
+            _ => return Err(("the -o json output of an aggregate is not an array of rows".into(), clip(&out))),
+        }
+    } else {
+        let mut v = vec![];
+        for l in out.lines().filter(|l| !l.is_empty()) {
+            match canon::parse(l) {
+                Ok(J::Obj(kvs)) => v.push(kvs),
+                _ => return Err(("a line of the -o json output is not an object".into(), clip(l))),
+            }
+        }
+        v
+    };
+    if jrows.len() != rows.len() {
+        return Err(("the -o json output has the wrong number of rows".into(), format!("wanted {} got {}: {}", rows.len(), jrows.len(), clip(&out))));
+    }
+    // (1) the values
+    let mut shown: Vec<Vec<(String, J)>> = vec![];
+    for (i, (k, cells)) in rows.iter().enumerate() {
+        let jr = match find_row(&jrows, i, k) {
+            Some(r) => r,
+            None => return Err(("the -o json output lacks the row of a group".into(), format!("k={:?}: {}", k, clip(&out)))),
+        };
+        let mut sh = vec![];
+        for (col, want) in cells {
+            let j = match jr.iter().find(|c| &c.0 == col) {
+                Some(c) => c.1.clone(),
+                None => return Err(("a column is missing from the -o json output".into(), format!("column {}: {}", col, clip(&out)))),
+            };
+            let ok = match want {
+                Want::Exact(x) => json_is(&j, *x),
+                Want::Near(x, tol) => json_num(&j).map(|g| g.is_finite() && (g - x).abs() <= *tol).unwrap_or(false),
+            };
+            if !ok {
+                let w = match want {
+                    Want::Exact(x) => format!("exactly {:?} (bits {:016x})", x, x.to_bits()),
+                    Want::Near(x, tol) => format!("{:?} ± {:e}", x, tol),
+                };
+                return Err(("JSON output does not show the number's double value".into(), format!("row {} column {}: wanted {}, -o json shows {:?}", i, col, w, j)));
+            }
+            sh.push((col.clone(), j));
+        }
+        shown.push(sh);
+    }
+    // (2) the text modes
+    let cols: Vec<String> = {
+        let mut c: Vec<String> = rows[0].1.iter().map(|c| c.0.clone()).collect();
+        if by_k {
+            c.push("k".into());
+        }
+        c
+    };
+    let fmt = format!("format={}", cols.iter().map(|c| format!("{{{}}}", c)).collect::<Vec<_>>().join("|"));
+    let mut judged = 0;
+    for mode in ["legacy", "logfmt", fmt.as_str()] {
+        let rt = imp::run(q, input, mode, 20);
+        if rt.hung {
+            return Err((String::new(), format!("the -o {} run did not finish in 20 s", mode)));
+        }
+        let shown_mode = if mode == "legacy" { "default text".to_string() } else { format!("-o {}", mode) };
+        if rt.panicked.is_some() || !rt.compiled {
+            return Err(("the query failed in a text output mode".into(), format!("{}: panicked={:?}", shown_mode, rt.panicked)));
+        }
+        let trows = match text_rows(mode, &rt.stdout, table, &cols) {
+            Some(t) if t.len() == rows.len() => t,
+            _ => return Err(("text output has the wrong shape (rows / cells)".into(), format!("{}: {}", shown_mode, clip(&String::from_utf8_lossy(&rt.stdout))))),
+        };
+        for (i, (k, _)) in rows.iter().enumerate() {
+            let tr: Vec<(String, String)> = if by_k {
+                let k = k.clone().unwrap_or_default();
+                match trows.iter().find(|row| row.iter().any(|c| c.0 == "k" && c.1 == k)) {
+                    Some(r) => r.clone(),
+                    None => return Err(("text output lacks the row of a group".into(), format!("{}: k={}: {}", shown_mode, k, clip(&String::from_utf8_lossy(&rt.stdout))))),
+                }
+            } else {
+                trows[i].clone()
+            };
+            for (col, j) in &shown[i] {
+                let text = match tr.iter().find(|c| &c.0 == col) {
+                    Some(c) => c.1.clone(),
+                    None => return Err(("a column is missing from the text output".into(), format!("{}: column {}: {}", shown_mode, col, clip(&String::from_utf8_lossy(&rt.stdout))))),
+                };
+                judged += 1;
+                if !text_shows(j, &text) {
+                    let want = match j {
+                        J::Float(f) => exact_fixed2(*f),
+                        other => format!("{:?}", other),
+                    };
+                    return Err((
+                        "text output is not the number's value correctly rounded to two decimals".into(),
+                        format!("{}: row {} column {}: printed `{}`, the value is {:?} (as -o json shows it), to two decimals `{}`", shown_mode, i, col, clip(&text), j, clip(&want)),
+                    ));
+                }
+            }
+        }
+    }
+    Ok(judged)
+}
+
+fn report_text(ctx: &mut Ctx, family: &str, q: &str, input: &[u8], res: Result<usize, (String, String)>) {
+    let key = ckey(q, input);
+    let info = serde_json::json!({"query": q, "input": String::from_utf8_lossy(input)});
+    match res {
+        Ok(_) => ctx.case(family, &key, "pass", info),
+        Err((what, detail)) if what.is_empty() => ctx.case(family, "", "skip", serde_json::json!({"why": "run timed out (machine busy)", "detail": detail})),
+        Err((what, detail)) => ctx.case(family, &key, "viol", serde_json::json!({"class": "", "what": what, "detail": detail, "case": info})),
+    }
+}
+
+/// (g1) plain records: extraction (json / num() of text / logfmt / parse) → [fields] → text
+fn text_record_case(ctx: &mut Ctx, r: &mut Rng) {
+    let route = r.below(4);
+    let nrec = 1 + r.below(3);
+    let with_k = r.chance(60);
+    let mut input = String::new();
+    let mut rows = vec![];
+    for _ in 0..nrec {
+        // legacy/logfmt/format records carry numbers of any magnitude (no table cell to fit)
+        let wide = r.chance(25);
+        let x = tricky_double(r, wide);
+        let lit = float_literal(r, x);
+        let x = lit.parse::<f64>().unwrap_or(x);
+        input.push_str(&route_line(route, &[("v", lit)], if with_k { Some(*r.pick(&["a", "b", "c"])) } else { None }));
+        rows.push((None, vec![("v".to_string(), Want::Exact(x))]));
+    }
+    let tail = *r.pick(&["", " | fields v", " | fields k, v", " | fields + v", " | fields - k"]);
+    let q = format!("* | {}{}", route_stage(route, &["v"], with_k), tail);
+    let res = judge_text(&q, input.as_bytes(), false, false, &rows);
+    report_text(ctx, "text-two-decimals-record", &q, input.as_bytes(), res);
+}
+
+/// (g2) results of arithmetic: `a op b as s | s op c as t | v * N as p`
+fn text_arith_case(ctx: &mut Ctx, r: &mut Rng) {
+    let route = *r.pick(&[0usize, 0, 1, 2, 3]);
+    let nrec = 1 + r.below(2);
+    let ops = ["+", "-", "*", "/"];
+    let (op1, op2) = (*r.pick(&ops), *r.pick(&["+", "-", "+", "-", "*", "/"]));
+    let n: i64 = *r.pick(&[2, 3, 7, 10, 100, 1000, 8, 5]);
+    let nop = *r.pick(&["*", "/", "+", "-"]);
+    let apply = |op: &str, a: f64, b: f64| match op {
+        "+" => a + b,
+        "-" => a - b,
+        "*" => a * b,
+        _ => a / b,
+    };
+    let mut input = String::new();
+    let mut rows = vec![];
+    for _ in 0..nrec {
+        // both operands integral would take the integer path (exactness is the business of the
+        // `pipeline` families): keep one side of every operation fractional
+        let frac = |r: &mut Rng| loop {
+            let x = tricky_double(r, false);
+            if x.fract() != 0.0 {
+                return x;
+            }
+        };
+        let a = tricky_double(r, false);
+        let (b, c) = (frac(r), frac(r));
+        // sometimes the pair is made to meet in a tie: b = (tie − a)
+        let b = if r.chance(25) {
+            let t = (r.range(-4000, 4000) as f64 * 8.0 + [1.0, 3.0, 5.0, 7.0][r.below(4)]) / 8.0;
+            let d = t - a;
+            if d.fract() != 0.0 && d.is_finite() {
+                d
+            } else {
+                b
+            }
+        } else {
+            b
+        };
+        let (la, lb, lc) = (float_literal(r, a), float_literal(r, b), float_literal(r, c));
+        let (a, b, c) = (la.parse::<f64>().unwrap_or(a), lb.parse::<f64>().unwrap_or(b), lc.parse::<f64>().unwrap_or(c));
+        let s = apply(op1, a, b);
+        let t = apply(op2, s, c);
+        let p = apply(nop, c, n as f64);
+        if ![s, t, p].iter().all(|v| v.is_finite()) {
+            continue;
+        }
+        input.push_str(&route_line(route, &[("a", la), ("b", lb), ("c", lc)], None));
+        rows.push((None, vec![("a".to_string(), Want::Exact(a)), ("b".to_string(), Want::Exact(b)), ("c".to_string(), Want::Exact(c)), ("s".to_string(), Want::Exact(s)), ("t".to_string(), Want::Exact(t)), ("p".to_string(), Want::Exact(p))]));
+    }
+    if rows.is_empty() {
+        return;
+    }
+    let tail = *r.pick(&["", "", " | fields s, t, p, a, b, c", " | fields - zz"]);
+    let q = format!("* | {} | a {} b as s | s {} c as t | c {} {} as p{}", route_stage(route, &["a", "b", "c"], false), op1, op2, nop, n, tail);
+    let res = judge_text(&q, input.as_bytes(), false, false, &rows);
+    report_text(ctx, "text-two-decimals-arith", &q, input.as_bytes(), res);
+}
+
+/// (g3) aggregate tables: sum / avg / max / min [by k], aliased or with the default column names
+fn text_agg_case(ctx: &mut Ctx, r: &mut Rng) {
+    let route = *r.pick(&[0usize, 0, 1, 2, 3]);
+    let nrec = 1 + r.below(6);
+    let by_k = r.chance(60);
+    let keys = ["a", "b", "c"];
+    let mut input = String::new();
+    let mut groups: Vec<(String, Vec<f64>)> = vec![];
+    // one magnitude class per case more often than not (sums of cents, sums of large amounts …)
+    for _ in 0..nrec {
+        let x = tricky_double(r, false);
+        let lit = float_literal(r, x);
+        let x = lit.parse::<f64>().unwrap_or(x);
+        let k = if by_k { keys[r.below(3)] } else { "a" };
+        input.push_str(&route_line(route, &[("v", lit)], if by_k { Some(k) } else { None }));
+        match groups.iter_mut().find(|g| g.0 == k) {
+            Some(g) => g.1.push(x),
+            None => groups.push((k.to_string(), vec![x])),
+        }
+    }
+    let aliased = r.chance(70);
+    let all = [("sum(v)", "s", "_sum"), ("avg(v)", "a", "_average"), ("max(v)", "hi", "_max"), ("min(v)", "lo", "_min"), ("count", "n", "_count")];
+    let mut picked: Vec<(&str, &str, &str)> = all.iter().filter(|_| r.chance(55)).cloned().collect();
+    if picked.is_empty() {
+        picked.push(all[r.below(4)]);
+    }
+    let spec: Vec<String> = picked.iter().map(|(f, a, _)| if aliased { format!("{} as {}", f, a) } else { f.to_string() }).collect();
+    let q = format!("* | {} | {}{}", route_stage(route, &["v"], by_k), spec.join(", "), if by_k { " by k" } else { "" });
+    let mut rows = vec![];
+    for (k, vals) in &groups {
+        let n = vals.len() as f64;
+        let sum: f64 = vals.iter().sum();
+        let mag: f64 = vals.iter().map(|v| v.abs()).sum();
+        // any order of a floating-point summation of n terms is within (n-1)·2^-53·Σ|v| of the true
+        // sum (to first order): a generous multiple of that
+        let tol = 64.0 * n * mag * 2f64.powi(-53);
+        let mut cells = vec![];
+        for (f, a, d) in &picked {
+            let col = if aliased { a.to_string() } else { d.to_string() };
+            let want = match *f {
+                "sum(v)" => Want::Near(sum, tol),
+                "avg(v)" => Want::Near(sum / n, tol / n + (sum / n).abs() * 2f64.powi(-50)),
+                "max(v)" => Want::Exact(vals.iter().cloned().fold(f64::NEG_INFINITY, f64::max)),
+                "min(v)" => Want::Exact(vals.iter().cloned().fold(f64::INFINITY, f64::min)),
+                _ => Want::Exact(n),
+            };
+            cells.push((col, want));
+        }
+        rows.push((if by_k { Some(k.clone()) } else { None }, cells));
+    }
+    let res = judge_text(&q, input.as_bytes(), true, by_k, &rows);
+    report_text(ctx, "text-two-decimals-aggregate", &q, input.as_bytes(), res);
+}
+
 pub fn check(ctx: &mut Ctx) {
     let n = ctx.budget(6000, 400000);
     for i in 0..n {
@@ -300,6 +949,20 @@ pub fn check(ctx: &mut Ctx) {
             ctx.case("text-arith", &key, "pass", info);
         } else {
             ctx.case("text-arith", &key, "viol", serde_json::json!({"class": "", "what": "arithmetic on numeric text differs from the same arithmetic on the numbers", "got_with_text": String::from_utf8_lossy(&rt.stdout), "got_with_numbers": String::from_utf8_lossy(&rn.stdout), "case": info}));
+        }
+    }
+
+    // ---- (g) "two decimals in text output": the text of a double — in a plain record, after
+    // arithmetic, in an aggregate table; default text mode, logfmt and format= — is the exact
+    // binary64 value correctly rounded to two decimals, and `-o json` of the same run keeps the
+    // double itself
+    let ntr = ctx.budget(2400, 90000);
+    for i in 0..ntr {
+        let mut r = ctx.rng.fork();
+        match i % 4 {
+            0 | 1 => text_record_case(ctx, &mut r),
+            2 => text_arith_case(ctx, &mut r),
+            _ => text_agg_case(ctx, &mut r),
         }
     }
 
